@@ -301,13 +301,15 @@ func (r *transport) handleCacheHit(
 	freshness, reqMaxAgeExceeded := r.calculateFreshness(stored, ccReq, ccResp)
 	respNoCacheFieldsRaw, hasRespNoCache := ccResp.NoCache()
 	respNoCacheFieldsSeq, isRespNoCacheQualified := respNoCacheFieldsRaw.Value()
+	var mustValidate bool
 
 	// Validation that no other directive (max-stale, stale-while-revalidate,
 	// immutable) may waive: request no-cache, a stale must-revalidate response,
 	// an unqualified response no-cache, or a request max-age that is exceeded.
-	if ccReq.NoCache() || reqMaxAgeExceeded ||
+	mustValidate = ccReq.NoCache() ||
 		(freshness.IsStale && ccResp.MustRevalidate()) ||
-		(hasRespNoCache && !isRespNoCacheQualified) {
+		(hasRespNoCache && !isRespNoCacheQualified)
+	if mustValidate || reqMaxAgeExceeded {
 		if ccReq.OnlyIfCached() {
 			// RFC 9111 §5.2.1.7: never contact the origin; nothing usable is stored.
 			return make504Response(req)
@@ -359,6 +361,8 @@ revalidate:
 		Refs:      refs,
 		RefIndex:  refIndex,
 		Freshness: freshness,
+		// stale-if-error may waive an exceeded request max-age, nothing else
+		MustValidate: mustValidate,
 	}
 	return r.vrh.HandleValidationResponse(ctx, req, resp, err)
 }
